@@ -145,6 +145,16 @@ pub fn ik_search(c: &Case, prop: &str) {
                             if dof5 { for s in plain.inverse_continuing(&pp, &pv) { if (s[5] - j6).abs() > 1e-12 { bad.push(format!("inverse_continuing (dof=5): J6 = {} instead of the previous {}", s[5], j6)); } } }
                         }
                     }
+                    // inside the thresholded singularity band (0 < |q5| < 0.01 deg) J4 is not free: the answers must still land when previous J4 is far away
+                    if prop == "C06" {
+                        for (e5, d4) in [(3.0e-5f64, 1.5f64), (1.0e-4, -2.4), (-8.0e-5, 0.9), (1.6e-4, 3.0)] {
+                            let mut qs = qq; qs[4] = (e5 + o.off[4]) * o.sign[4];
+                            let pose_s = fk(&o, &qs); let pps = pose_of(&pose_s);
+                            let mut pv = qs; pv[3] += d4; pv[0] += 0.05;
+                            for s in plain.inverse_continuing_5dof(&pps, &pv) { if let Err(e) = lands(&o, &s, &pose_s, false, TOL) { bad.push(format!("inverse_continuing_5dof near the wrist singularity (q5 = {}, previous J4 off by {}): {}", e5, d4, e)); } }
+                            for s in plain.inverse_5dof(&pps, 0.3) { if let Err(e) = lands(&o, &s, &pose_s, false, TOL) { bad.push(format!("inverse_5dof near the wrist singularity (q5 = {}): {}", e5, e)); } }
+                        }
+                    }
                     // previous realises the pose and is not singular => first
                     if prop == "C04" && !wrist_singular && !dof5 {
                         let s = plain.inverse_continuing(&pp, &qq);
@@ -168,7 +178,7 @@ fn leaf(c: &Case) {
     let flip = now.abs() == PI && out == -now;
     if (m - m.round()).abs() > 1e-9 && !flip { bad.push(format!("normalize_near({}, {}) = {} is not now + 2*pi*m (m = {})", now, prev, out, m)); }
     if m.round().abs() > 3.0 { bad.push(format!("normalize_near moved by {} turns", m)); }
-    if now.abs() <= PI && prev.abs() <= 2.0 * PI && (out - prev).abs() > PI + 1e-9 { bad.push(format!("normalize_near({}, {}) = {} is farther than pi from prev", now, prev, out)); }
+    if now.abs() <= PI && prev.abs() <= 3.0 * PI && (out - prev).abs() > PI + 1e-9 { bad.push(format!("normalize_near({}, {}) = {} is farther than pi from prev", now, prev, out)); }
     if now == prev && out != now { bad.push("now == prev changed".into()); }
     if !out.is_finite() { bad.push("non-finite".into()); }
     println!("out={}", out);
